@@ -185,6 +185,27 @@ theorem exposure_within_plan (kind : Kind) (B : Int) (hB : 1 ≤ B) (evs : List 
     exposureW kind w' ≤ B :=
   RV.Lemmas.CtlBlueGreen.exposure_within_plan kind B hB evs w w' hi hp hr
 
+/-- **C01 (`UpgradeBatch` keeps the hold)** — whenever `UpgradeBatch` writes, the patched workload still cannot make
+    new pods available (`minReadySeconds = MaxReadySeconds`, update type accepted) and — Deployment — has
+    `maxUnavailable = 0`: the surge is the only thing that lets pods of the new revision exist. -/
+theorem upgrade_keeps_hold (kind : Kind) (w : World) (br : BR) (f : Fault) (out : CallOut)
+    (h : cpUpgradeBatch kind w br f = .val out) : upgradeKeepsHold kind out = true :=
+  RV.Lemmas.CtlBlueGreen.upgrade_keeps_hold kind w br f out h
+
+/-- **C01 (`Initialize` installs the hold)** — a successful `Initialize` that takes control leaves `minReadySeconds =
+    MaxReadySeconds`, `maxUnavailable = 0` and a surge that `CalculateBatchContext` reads as `0` ("nothing exposed
+    yet"), and records the control-info of this BatchRelease — for every workload and fault. -/
+theorem init_installs_hold (kind : Kind) (w : World) (br : BR) (f : Fault) (out : CallOut)
+    (h : cpInitialize kind w br f = .val out) : initInstallsHold w br out = true :=
+  RV.Lemmas.CtlBlueGreen.init_installs_hold kind w br f out h
+
+/-- **C01 (`Initialize` disables the HPA, partial)** — after a successful `Initialize` that takes control, the HPA that
+    `findHPAForWorkload` associates with the workload carries the disabling suffix, so it cannot scale the workload
+    during the release; outside the known finding `hpaListFault`. -/
+theorem init_disables_hpa_partial (kind : Kind) (w : World) (br : BR) (f : Fault) (out : CallOut)
+    (h : cpInitialize kind w br f = .val out) (hG : gListFault f = false) : initDisablesHPA w br out = true :=
+  RV.Lemmas.CtlBlueGreen.init_disables_hpa_partial kind w br f out h hG
+
 /-! ## C09 — panics -/
 
 /-- **C09 (partial)** — for every world, BatchRelease and fault: none of the three calls panics, unless the
@@ -319,6 +340,13 @@ theorem retry_converges_full_FALSE_listFault :
     let o3 := outOf (cpInitialize .deployment w (brOf 0) noFault)
     gListFault f = true ∧ o1.res = .ok ∧ retryConverges o2 o3 = false ∧
     o2.world.hpaV2 = [theHPA 0] ∧ o3.world.hpaV2 = [theHPA 1] := by
+  decide
+
+/-- **`hpaListFault`** (Initialize, one call) — … the successful `Initialize` itself leaves the HPA enabled -/
+theorem init_disables_hpa_full_FALSE :
+    let w := worldOf wlUser [theHPA 0] []
+    let f : Fault := { noFault with listV2 := true }
+    gListFault f = true ∧ initDisablesHPA w (brOf 0) (outOf (cpInitialize .deployment w (brOf 0) f)) = false := by
   decide
 
 /-- **`hpaNoApiVersion`** — an HPA of the namespace whose `scaleTargetRef` has no `apiVersion` (it targets some other
